@@ -31,6 +31,11 @@ SAMPLE_MAX = 24
 EXPECTED_EXC = ()   # exception classes that a body may let escape as SKIP (none by default)
 
 
+class HarnessError(BaseException):
+    """A bug of the verification harness itself (no gwf frame on the stack): never a violation.
+    BaseException so that query bodies, which catch Exception around gwf calls, cannot swallow it."""
+
+
 def excluded(finding_id):
     return finding_id in EXCLUDE
 
@@ -109,6 +114,8 @@ def run(body, args):
     except Exception as exc:  # never BaseException: CrossHair steers with those
         with NoTracing():
             tb = traceback.extract_tb(exc.__traceback__)
+            if not any("/gwf/" in fr.filename for fr in tb):
+                raise HarnessError("exception outside gwf code: %s: %s at %s" % (type(exc).__name__, exc, ["%s:%d" % (os.path.basename(fr.filename), fr.lineno) for fr in tb][-2:])) from exc
             where = ""
             for fr in reversed(tb):
                 if "/gwf/" in fr.filename or "/vf/" in fr.filename:
@@ -156,6 +163,8 @@ def _run_concrete(body, args):
         r = body(*args)
     except Exception as exc:
         tb = traceback.extract_tb(exc.__traceback__)
+        if not any("/gwf/" in fr.filename for fr in tb):
+            raise HarnessError("exception outside gwf code: %s: %s" % (type(exc).__name__, exc)) from exc
         where = ""
         for fr in reversed(tb):
             if "/gwf/" in fr.filename or "/vf/" in fr.filename:
